@@ -1,18 +1,18 @@
-\* C06, exhaustive, thorough tier: four blocks, one fork, no restart
+\* the repair of F6: the removal is still a step of its own after the acknowledgement, but the tracked list is locked until it is done
 CONSTANTS
-  N = 4
-  Chunks = {1,2}
+  N = 3
+  Chunks = {2}
   TipTags = {"latest"}
   BufCap = 1
-  MaxForks = 1
+  MaxForks = 2
   MaxFails = 0
   MaxPFails = 0
   MaxRestarts = 0
   Detector = TRUE
   RetryLimit = 5
-  AtomicRemove = TRUE
+  AtomicRemove = FALSE
   RemoveByHash = FALSE
-  LockedRemove = FALSE
+  LockedRemove = TRUE
   Contents = {0,1}
   FinLag = 0
   NoIdle = FALSE
@@ -20,5 +20,5 @@ CONSTANTS
 INIT Init
 NEXT Next
 VIEW view
-INVARIANTS Ordered Faithful NoSkip Converged RewindLow TypeOK
+INVARIANTS RewindLow
 CHECK_DEADLOCK FALSE
